@@ -231,4 +231,483 @@ theorem perm_sortAsc (l : List Nat) : (sortAsc l).Perm l := by
   | nil => simp [sortAsc]
   | cons x xs ih => exact (perm_insertAsc x _).trans (List.Perm.cons x ih)
 
+/-! ## chunk arithmetic of `z_curve_partition` -/
+
+namespace ZCurve
+
+theorem numChunks_mul (q r : Nat) (hq : 0 < q) : numChunks (q * r) q = r := by
+  unfold numChunks
+  cases r with
+  | zero => simp
+  | succ r' =>
+    have hne : q * (r' + 1) ≠ 0 := Nat.mul_ne_zero (by omega) (by omega)
+    rw [if_neg hne]
+    have : q * (r' + 1) - 1 = q * r' + (q - 1) := by rw [Nat.mul_succ]; omega
+    rw [this, Nat.mul_add_div hq, Nat.div_eq_of_lt (by omega)]
+
+/-- Arithmetic facts about `n / k`, `n % k` used below, with the products as atoms. -/
+theorem divmod_facts (n k : Nat) (hk : 1 ≤ k) :
+    n = k * (n / k) + n % k ∧ n % k < k := ⟨(Nat.div_add_mod n k).symm, Nat.mod_lt _ (by omega)⟩
+
+theorem chunkId_lo (n k pos : Nat) (h : pos < (n / k + 1) * (n % k)) :
+    chunkId n k pos = pos / (n / k + 1) := by
+  simp only [chunkId, if_pos h]
+
+theorem chunkId_hi (n k pos : Nat) (h : ¬ pos < (n / k + 1) * (n % k)) :
+    chunkId n k pos = n % k + (pos - (n / k + 1) * (n % k)) / max (n / k) 1 := by
+  simp only [chunkId, if_neg h, numChunks_mul _ _ (Nat.succ_pos _)]
+
+/-- Every position lies in the interval of its own chunk. -/
+theorem chunk_mem_interval (n k pos : Nat) (hk : 1 ≤ k) (hp : pos < n) :
+    chunkStart n k (chunkId n k pos) ≤ pos ∧ pos < chunkStart n k (chunkId n k pos + 1) := by
+  obtain ⟨hn, hR⟩ := divmod_facts n k hk
+  by_cases h : pos < (n / k + 1) * (n % k)
+  · rw [chunkId_lo n k pos h]
+    generalize hP : n / k = P at *
+    generalize hRr : n % k = R at *
+    have hq : 0 < P + 1 := Nat.succ_pos _
+    have hc : pos / (P + 1) < R := by
+      rw [Nat.div_lt_iff_lt_mul hq, Nat.mul_comm]; exact h
+    generalize hcd : pos / (P + 1) = c at *
+    have h1 : c * (P + 1) ≤ pos := by rw [← hcd]; exact Nat.div_mul_le_self _ _
+    have h2 : pos < (c + 1) * (P + 1) := by
+      have := Nat.lt_mul_div_succ pos hq
+      rw [hcd, Nat.mul_comm (P + 1) (c + 1)] at this
+      exact this
+    simp only [chunkStart, hP, hRr]
+    rw [Nat.min_eq_left (by omega : c ≤ R), Nat.min_eq_left (by omega : c + 1 ≤ R)]
+    rw [Nat.mul_succ] at h1 h2
+    omega
+  · rw [chunkId_hi n k pos h]
+    generalize hP : n / k = P at *
+    generalize hRr : n % k = R at *
+    have hP1 : 1 ≤ P := by
+      refine Classical.byContradiction fun hc => ?_
+      have : P = 0 := by omega
+      subst this
+      simp at hn h
+      omega
+    rw [Nat.max_eq_left hP1]
+    have hthr : (P + 1) * R = P * R + R := by rw [Nat.succ_mul]
+    rw [hthr] at h ⊢
+    generalize he : (pos - (P * R + R)) / P = e
+    have h1 : e * P ≤ pos - (P * R + R) := by rw [← he]; exact Nat.div_mul_le_self _ _
+    have h2 : pos - (P * R + R) < (e + 1) * P := by
+      have := Nat.lt_mul_div_succ (pos - (P * R + R)) (show 0 < P by omega)
+      rw [he, Nat.mul_comm P (e + 1)] at this
+      exact this
+    simp only [chunkStart, hP, hRr]
+    rw [Nat.min_eq_right (by omega : R ≤ R + e), Nat.min_eq_right (by omega : R ≤ R + e + 1)]
+    have e1 : (R + e) * P = P * R + e * P := by rw [Nat.add_mul, Nat.mul_comm R P]
+    have e2 : (R + e + 1) * P = P * R + (e + 1) * P := by
+      rw [Nat.add_assoc, Nat.add_mul, Nat.mul_comm R P]
+    rw [e1, e2]
+    omega
+
+theorem chunkStart_mono (n k : Nat) {a b : Nat} (h : a ≤ b) : chunkStart n k a ≤ chunkStart n k b := by
+  unfold chunkStart
+  have := Nat.mul_le_mul_right (n / k) h
+  omega
+
+/-- Chunk `c` is exactly the interval `[chunkStart c, chunkStart (c+1))` of positions. -/
+theorem chunk_interval (n k pos c : Nat) (hk : 1 ≤ k) (hp : pos < n) :
+    chunkId n k pos = c ↔ chunkStart n k c ≤ pos ∧ pos < chunkStart n k (c + 1) := by
+  have hm := chunk_mem_interval n k pos hk hp
+  constructor
+  · intro h; subst h; exact hm
+  · intro ⟨h1, h2⟩
+    refine Classical.byContradiction fun hne => ?_
+    rcases Nat.lt_or_gt_of_ne hne with hlt | hgt
+    · have := chunkStart_mono n k (show chunkId n k pos + 1 ≤ c by omega)
+      omega
+    · have := chunkStart_mono n k (show c + 1 ≤ chunkId n k pos by omega)
+      omega
+
+theorem chunkStart_zero (n k : Nat) : chunkStart n k 0 = 0 := by simp [chunkStart]
+
+theorem chunkStart_last (n k : Nat) (hk : 1 ≤ k) : chunkStart n k k = n := by
+  obtain ⟨hn, hR⟩ := divmod_facts n k hk
+  unfold chunkStart
+  rw [Nat.min_eq_right (by omega)]
+  omega
+
+/-- Length of chunk `c`: `n / k + 1` for the first `n % k` chunks, `n / k` for the others. -/
+theorem chunkStart_succ_sub (n k c : Nat) :
+    chunkStart n k (c + 1) - chunkStart n k c = n / k + (if c < n % k then 1 else 0) := by
+  unfold chunkStart
+  generalize n / k = P
+  generalize n % k = R
+  rw [Nat.succ_mul]
+  split <;> omega
+
+theorem chunk_lt' (n k pos : Nat) (hk : 1 ≤ k) (hp : pos < n) : chunkId n k pos < k := by
+  have hm := chunk_mem_interval n k pos hk hp
+  refine Classical.byContradiction fun hc => ?_
+  have := chunkStart_mono n k (show k ≤ chunkId n k pos by omega)
+  rw [chunkStart_last n k hk] at this
+  omega
+
+theorem chunk_monotone' (n k : Nat) {pos pos' : Nat} (hk : 1 ≤ k) (h : pos ≤ pos') (hp : pos' < n) :
+    chunkId n k pos ≤ chunkId n k pos' := by
+  have h1 := chunk_mem_interval n k pos hk (by omega)
+  have h2 := chunk_mem_interval n k pos' hk hp
+  refine Classical.byContradiction fun hc => ?_
+  have := chunkStart_mono n k (show chunkId n k pos' + 1 ≤ chunkId n k pos by omega)
+  omega
+
+/-- Number of positions of `0..n` in `[a, b)`. -/
+theorem count_interval : ∀ (n a b : Nat), a ≤ b → b ≤ n →
+    ((List.range n).filter (fun p => decide (a ≤ p ∧ p < b))).length = b - a := by
+  intro n
+  induction n with
+  | zero => intro a b hab hb; simp; omega
+  | succ m ih =>
+    intro a b hab hb
+    rw [List.range_succ, List.filter_append, List.length_append]
+    by_cases hbm : b ≤ m
+    · rw [ih a b hab hbm]
+      have : ([m].filter fun p => decide (a ≤ p ∧ p < b)) = [] := by
+        simp; omega
+      rw [this]; simp
+    · have hb' : b = m + 1 := by omega
+      subst hb'
+      by_cases ham : a ≤ m
+      · have hc : (List.range m).filter (fun p => decide (a ≤ p ∧ p < m + 1)) =
+            (List.range m).filter (fun p => decide (a ≤ p ∧ p < m)) := by
+          apply List.filter_congr
+          intro x hx
+          have := List.mem_range.mp hx
+          simp only [decide_eq_decide]
+          omega
+        rw [hc, ih a m ham (Nat.le_refl _)]
+        have : ([m].filter fun p => decide (a ≤ p ∧ p < m + 1)) = [m] := by
+          simp; omega
+        rw [this]; simp; omega
+      · have h1 : (List.range m).filter (fun p => decide (a ≤ p ∧ p < m + 1)) = [] := by
+          rw [List.filter_eq_nil_iff]
+          intro x hx
+          have := List.mem_range.mp hx
+          simp only [decide_eq_true_eq]
+          omega
+        have h2 : ([m].filter fun p => decide (a ≤ p ∧ p < m + 1)) = [] := by
+          simp; omega
+        rw [h1, h2]; simp; omega
+
+/-- Size of part `c`: the number of positions that get id `c`. -/
+def chunkSize (n k c : Nat) : Nat :=
+  ((List.range n).filter (fun pos => decide (chunkId n k pos = c))).length
+
+theorem chunkSize_eq (n k c : Nat) (hk : 1 ≤ k) (hc : c < k) :
+    chunkSize n k c = n / k + (if c < n % k then 1 else 0) := by
+  unfold chunkSize
+  have hcongr : (List.range n).filter (fun pos => decide (chunkId n k pos = c)) =
+      (List.range n).filter (fun p => decide (chunkStart n k c ≤ p ∧ p < chunkStart n k (c + 1))) := by
+    apply List.filter_congr
+    intro x hx
+    have := List.mem_range.mp hx
+    simp only [decide_eq_decide]
+    exact chunk_interval n k x c hk this
+  rw [hcongr, count_interval n _ _ (chunkStart_mono n k (by omega)) ?_, chunkStart_succ_sub]
+  have := chunkStart_mono n k (show c + 1 ≤ k by omega)
+  rw [chunkStart_last n k hk] at this
+  exact this
+
+/-! ## `z_curve_partition_recurse` -/
+
+/-- What `par_sort_unstable_by_key` is trusted to do: return a permutation of the slice
+that is sorted by the key (nothing about the order of equal keys). -/
+def SortSpec (sortBy : (Nat → Nat) → List Nat → List Nat) : Prop :=
+  ∀ key l, (sortBy key l).Perm l ∧ (sortBy key l).Pairwise (fun a b => key a ≤ key b)
+
+/-- The Z-order cell of point `i` relative to the box at `path`, `d` levels deep: the
+regions it falls in, outermost first (`region … .unwrap_or(0)` then `sub_mbr(region)`;
+this is what the `codes` hook computes from the root box). -/
+def relCode (region : List Nat → Nat → Nat) : Nat → List Nat → Nat → List Nat
+  | 0, _, _ => []
+  | d + 1, path, i => region path i :: relCode region d (path ++ [region path i]) i
+
+/-- Lexicographic `≤` on cell codes (of equal length: numeric order of the Z-hash). -/
+def lexLe : List Nat → List Nat → Prop
+  | [], _ => True
+  | _ :: _, [] => False
+  | a :: as, b :: bs => a < b ∨ (a = b ∧ lexLe as bs)
+
+theorem lexLe_refl : ∀ l, lexLe l l
+  | [] => trivial
+  | _ :: as => Or.inr ⟨rfl, lexLe_refl as⟩
+
+/-! ### bucket boundaries -/
+
+theorem cmpLG_lt {a r : Nat} : (if a < r then Ordering.lt else Ordering.gt) = Ordering.lt ↔ a < r := by
+  split <;> simp [*]
+
+theorem cmpLG_gt {a r : Nat} : (if a < r then Ordering.lt else Ordering.gt) = Ordering.gt ↔ ¬ a < r := by
+  split <;> simp [*]
+
+theorem cmpLG_ne_eq {a r : Nat} : (if a < r then Ordering.lt else Ordering.gt) ≠ Ordering.eq := by
+  split <;> simp
+
+def bpos (regs : List Nat) (r : Nat) : Nat :=
+  (bsearchBy regs.length (fun i => if regs.getD i 0 < r then Ordering.lt else Ordering.gt)).idx
+
+/-- On a region-sorted slice the binary search with the `Less`/`Greater` comparator never
+answers `Ok` (so `unwrap_err` does not panic) and returns the partition point. -/
+theorem boundary_spec (regs : List Nat) (hs : regs.Pairwise (· ≤ ·)) (r : Nat) :
+    boundary regs r = some (bpos regs r) ∧ bpos regs r ≤ regs.length ∧
+    (∀ j, j < bpos regs r → regs.getD j 0 < r) ∧
+    (∀ j, bpos regs r ≤ j → j < regs.length → r ≤ regs.getD j 0) := by
+  have hm : Mono regs.length (fun i => if regs.getD i 0 < r then Ordering.lt else Ordering.gt) := by
+    constructor
+    · intro i j hij hj h
+      have := getD_mono hs hij hj
+      rw [cmpLG_gt] at h ⊢
+      omega
+    · intro i j hij hj h
+      have := getD_mono hs hij hj
+      rw [cmpLG_lt] at h ⊢
+      omega
+  have h := bsearchBy_spec _ _ hm
+  unfold boundary bpos
+  cases hb : bsearchBy regs.length (fun i => if regs.getD i 0 < r then Ordering.lt else Ordering.gt) with
+  | ok i =>
+    rw [hb] at h
+    exact absurd h.2 cmpLG_ne_eq
+  | err i =>
+    rw [hb] at h
+    simp only [BRes.idx]
+    refine ⟨trivial, h.1, fun j hj => cmpLG_lt.mp (h.2.1 j hj), fun j hj hjl => ?_⟩
+    have := cmpLG_gt.mp (h.2.2 j hj hjl)
+    omega
+
+theorem bpos_mono (regs : List Nat) (hs : regs.Pairwise (· ≤ ·)) {r r' : Nat} (h : r ≤ r') :
+    bpos regs r ≤ bpos regs r' := by
+  obtain ⟨_, h1, h2, h3⟩ := boundary_spec regs hs r
+  obtain ⟨_, h1', h2', h3'⟩ := boundary_spec regs hs r'
+  refine Classical.byContradiction fun hc => ?_
+  have a := h2 (bpos regs r') (by omega)
+  have b := h3' (bpos regs r') (Nat.le_refl _) (by omega)
+  omega
+
+theorem mapM_some {α β} (f : α → Option β) (g : α → β) :
+    ∀ (l : List α), (∀ x ∈ l, f x = some (g x)) → l.mapM f = some (l.map g)
+  | [], _ => by simp
+  | x :: xs, h => by
+    have h1 := h x (List.mem_cons_self ..)
+    have h2 := mapM_some f g xs (fun y hy => h y (List.mem_cons_of_mem _ hy))
+    simp [List.mapM_cons, h1, h2]
+
+/-! ### `split_at_mut_many` -/
+
+/-- With non-decreasing positions inside the slice, `split_at_mut_many` does not panic,
+returns `positions.len() + 1` pieces whose concatenation is the slice, and piece `k` holds
+the elements at the (absolute) positions `[positions[k-1], positions[k])`. -/
+theorem splitAtMany_spec {α} : ∀ (ps : List Nat) (rest : List α) (drained : Nat),
+    ps.Pairwise (· ≤ ·) → (∀ p ∈ ps, drained ≤ p ∧ p ≤ drained + rest.length) →
+    ∃ out, splitAtMany rest drained ps = some out ∧ out.length = ps.length + 1 ∧
+      out.flatten = rest ∧
+      ∀ k a, a ∈ out.getD k [] → ∃ j, rest[j]? = some a ∧
+        (if k = 0 then drained else ps.getD (k - 1) 0) ≤ drained + j ∧
+        drained + j < (if k < ps.length then ps.getD k 0 else drained + rest.length) := by
+  intro ps
+  induction ps with
+  | nil =>
+    intro rest drained _ _
+    refine ⟨[rest], rfl, rfl, by simp, ?_⟩
+    intro k a ha
+    cases k with
+    | zero =>
+      simp only [List.getD_cons_zero] at ha
+      obtain ⟨j, hj, hja⟩ := List.mem_iff_getElem.mp ha
+      refine ⟨j, by simp [hj, hja], by simp, by simp; omega⟩
+    | succ k => simp at ha
+  | cons pos ps ih =>
+    intro rest drained hpw hb
+    rw [List.pairwise_cons] at hpw
+    have hpos := hb pos (List.mem_cons_self ..)
+    have hlen : (rest.drop (pos - drained)).length = rest.length - (pos - drained) := List.length_drop
+    obtain ⟨out', ho, hl, hf, hk⟩ := ih (rest.drop (pos - drained)) (drained + (pos - drained)) hpw.2 (by
+      intro p hp
+      have := hb p (List.mem_cons_of_mem _ hp)
+      have := hpw.1 p hp
+      rw [hlen]; omega)
+    refine ⟨rest.take (pos - drained) :: out', ?_, by simp [hl], by simp [hf], ?_⟩
+    · rw [splitAtMany, if_neg (by omega)]
+      dsimp only
+      rw [if_neg (by omega), ho]; rfl
+    · intro k a ha
+      cases k with
+      | zero =>
+        simp only [List.getD_cons_zero] at ha
+        obtain ⟨j, hj, hja⟩ := List.mem_iff_getElem.mp ha
+        have hj' : j < pos - drained ∧ j < rest.length := by
+          rw [List.length_take] at hj; omega
+        refine ⟨j, ?_, by simp, by simp; omega⟩
+        rw [List.getElem_take] at hja
+        simp [hj'.2, hja]
+      | succ k =>
+        simp only [List.getD_cons_succ] at ha
+        obtain ⟨j, hj, hlo, hhi⟩ := hk k a ha
+        refine ⟨pos - drained + j, ?_, ?_, ?_⟩
+        · rw [List.getElem?_drop] at hj; exact hj
+        · simp only [Nat.add_one_ne_zero, if_false, Nat.add_sub_cancel]
+          cases k with
+          | zero => simp at hlo ⊢; omega
+          | succ k => simp at hlo ⊢; omega
+        · simp only [List.length_cons, Nat.add_lt_add_iff_right, List.getD_cons_succ]
+          rw [hlen] at hhi
+          split
+          · next h => rw [if_pos h] at hhi; omega
+          · next h => rw [if_neg h] at hhi; omega
+
+/-! ### the recursion -/
+
+theorem pairwise_of_length_le_one {R : Nat → Nat → Prop} :
+    ∀ (l : List Nat), l.length ≤ 1 → l.Pairwise R
+  | [], _ => List.Pairwise.nil
+  | [a], _ => List.pairwise_singleton R a
+  | _ :: _ :: _, h => by simp at h
+
+theorem pairwise_of_forall {R : Nat → Nat → Prop} (h : ∀ a b, R a b) : ∀ l : List Nat, l.Pairwise R
+  | [] => List.Pairwise.nil
+  | x :: xs => List.Pairwise.cons (fun y _ => h x y) (pairwise_of_forall h xs)
+
+/-- The `slices.into_par_iter().enumerate().for_each(recurse)` step, given that the
+recursive calls behave (`IH`) and that slice `j` holds exactly region `n + j`. -/
+theorem mapM_slices (dimCells : Nat) (sortBy : (Nat → Nat) → List Nat → List Nat)
+    (region : List Nat → Nat → Nat) (order : Nat) (path : List Nat)
+    (IH : ∀ path' permu', ∃ out, sortRec dimCells sortBy region order path' permu' = some out ∧
+      out.Perm permu' ∧
+      out.Pairwise (fun a b => lexLe (relCode region order path' a) (relCode region order path' b))) :
+    ∀ (L : List (List Nat)) (n : Nat), (∀ j a, a ∈ L.getD j [] → region path a = n + j) →
+      ∃ outs, (L.zipIdx n).mapM (fun (x : List Nat × Nat) =>
+          sortRec dimCells sortBy region order (path ++ [x.2]) x.1) = some outs ∧
+        outs.flatten.Perm L.flatten ∧
+        outs.flatten.Pairwise (fun a b =>
+          lexLe (relCode region (order + 1) path a) (relCode region (order + 1) path b)) := by
+  intro L
+  induction L with
+  | nil => intro n _; exact ⟨[], by simp, by simp, by simp⟩
+  | cons s ss ih =>
+    intro n hb
+    have hs : ∀ a ∈ s, region path a = n := fun a ha => by
+      have := hb 0 a (by simpa using ha); simpa using this
+    have hss : ∀ j a, a ∈ ss.getD j [] → region path a = (n + 1) + j := fun j a ha => by
+      have := hb (j + 1) a (by simpa using ha); omega
+    obtain ⟨o, ho, hop, hopw⟩ := IH (path ++ [n]) s
+    obtain ⟨outs', hm, hp, hpw⟩ := ih (n + 1) hss
+    refine ⟨o :: outs', ?_, ?_, ?_⟩
+    · simp [List.zipIdx_cons, List.mapM_cons, ho, hm]
+    · simp only [List.flatten_cons]; exact hop.append hp
+    · rw [List.flatten_cons, List.pairwise_append]
+      refine ⟨?_, hpw, ?_⟩
+      · apply hopw.imp_of_mem
+        intro a b ha hb' hab
+        have ka := hs a (hop.mem_iff.mp ha)
+        have kb := hs b (hop.mem_iff.mp hb')
+        simp only [relCode, ka, kb]
+        exact Or.inr ⟨rfl, hab⟩
+      · intro a ha b hb'
+        have ka := hs a (hop.mem_iff.mp ha)
+        have hbf : b ∈ ss.flatten := hp.mem_iff.mp hb'
+        obtain ⟨s', hs', hbs'⟩ := List.mem_flatten.mp hbf
+        obtain ⟨j, hj, hjs⟩ := List.mem_iff_getElem.mp hs'
+        have kb := hss j b (by
+          simp only [List.getD_eq_getElem?_getD, List.getElem?_eq_getElem hj, Option.getD_some, hjs]
+          exact hbs')
+        simp only [relCode, ka, kb]
+        exact Or.inl (by omega)
+
+/-- `z_curve_partition_recurse` never panics, returns a permutation of its slice, and
+leaves the slice sorted by Z-order cell (lexicographically by the regions of the next
+`order` levels) – for every region function with values below `2^D` and every sort that
+meets `SortSpec`. -/
+theorem sortRec_spec (dimCells : Nat) (hd : 1 ≤ dimCells)
+    (sortBy : (Nat → Nat) → List Nat → List Nat) (hs : SortSpec sortBy)
+    (region : List Nat → Nat → Nat) (hreg : ∀ path i, region path i < dimCells) :
+    ∀ order path permu, ∃ out, sortRec dimCells sortBy region order path permu = some out ∧
+      out.Perm permu ∧
+      out.Pairwise (fun a b => lexLe (relCode region order path a) (relCode region order path b)) := by
+  intro order
+  induction order with
+  | zero =>
+    intro path permu
+    exact ⟨permu, rfl, List.Perm.refl _, pairwise_of_forall (fun _ _ => trivial) _⟩
+  | succ order ih =>
+    intro path permu
+    rw [sortRec]
+    split
+    · next hl => exact ⟨permu, rfl, List.Perm.refl _, pairwise_of_length_le_one _ hl⟩
+    · dsimp only
+      obtain ⟨hperm, hsorted⟩ := hs (region path) permu
+      generalize sortBy (region path) permu = sorted at hperm hsorted
+      have hregs : (sorted.map (region path)).Pairwise (· ≤ ·) := List.pairwise_map.mpr hsorted
+      generalize hrg : sorted.map (region path) = regs at hregs
+      have hmap := mapM_some (boundary regs) (bpos regs) (List.range' 1 (dimCells - 1))
+        (fun r _ => (boundary_spec regs hregs r).1)
+      rw [hmap]
+      dsimp only
+      have hrl : regs.length = sorted.length := by rw [← hrg]; simp
+      obtain ⟨slices, hsl, hlen, hflat, hk⟩ :=
+        splitAtMany_spec ((List.range' 1 (dimCells - 1)).map (bpos regs)) sorted 0
+          (by
+            rw [List.pairwise_map]
+            exact (List.pairwise_lt_range' (s := 1) (n := dimCells - 1)).imp
+              (fun h => bpos_mono regs hregs (Nat.le_of_lt h)))
+          (by
+            intro p hp
+            obtain ⟨r, _, rfl⟩ := List.mem_map.mp hp
+            have := (boundary_spec regs hregs r).2.1
+            omega)
+      rw [hsl]
+      dsimp only
+      have hbucket : ∀ j a, a ∈ slices.getD j [] → region path a = 0 + j := by
+        intro j a ha
+        have hj : j < slices.length := by
+          refine Classical.byContradiction fun hc => ?_
+          simp [List.getD_eq_getElem?_getD, List.getElem?_eq_none (Nat.le_of_not_lt hc)] at ha
+        rw [hlen, List.length_map, List.length_range'] at hj
+        obtain ⟨i, hi, hlo, hhi⟩ := hk j a ha
+        have hi' : i < sorted.length := by
+          refine Classical.byContradiction fun hc => ?_
+          rw [List.getElem?_eq_none (Nat.le_of_not_lt hc)] at hi
+          exact absurd hi (by simp)
+        have hreg_i : regs.getD i 0 = region path a := by
+          rw [← hrg]
+          simp only [List.getD_eq_getElem?_getD, List.getElem?_map, hi, Option.map_some, Option.getD_some]
+        obtain ⟨_, _, hlt, hge⟩ := boundary_spec regs hregs j
+        obtain ⟨_, _, hlt', hge'⟩ := boundary_spec regs hregs (j + 1)
+        simp only [List.length_map, List.length_range', Nat.zero_add] at hlo hhi
+        have hlow : j ≤ region path a := by
+          by_cases hj0 : j = 0
+          · omega
+          · rw [if_neg hj0] at hlo
+            have hg : ((List.range' 1 (dimCells - 1)).map (bpos regs)).getD (j - 1) 0 = bpos regs j := by
+              simp only [List.getD_eq_getElem?_getD, List.getElem?_map, List.getElem?_range',
+                show j - 1 < dimCells - 1 by omega, Option.map_some, Option.getD_some]
+              congr 1; omega
+            rw [hg] at hlo
+            have := hge i hlo (by omega)
+            omega
+        have hup : region path a ≤ j := by
+          by_cases hjm : j < dimCells - 1
+          · rw [if_pos hjm] at hhi
+            have hg : ((List.range' 1 (dimCells - 1)).map (bpos regs)).getD j 0 = bpos regs (j + 1) := by
+              simp only [List.getD_eq_getElem?_getD, List.getElem?_map, List.getElem?_range', hjm,
+                Option.map_some, Option.getD_some]
+              congr 1; omega
+            rw [hg] at hhi
+            have := hlt' i hhi
+            omega
+          · have := hreg path a
+            omega
+        omega
+      obtain ⟨outs, hm, hp, hpw⟩ := mapM_slices dimCells sortBy region order path ih slices 0 hbucket
+      rw [hm]
+      refine ⟨outs.flatten, rfl, ?_, hpw⟩
+      rw [hflat] at hp
+      exact hp.trans hperm
+
+
+end ZCurve
+
 end Coupe.Sfc
